@@ -237,6 +237,11 @@ def _decoder(ctx: Ctx) -> dict[str, Any] | None:
     brks = [e for e in gw2.exits if e.kind == "break"]
     ok_p = False
     detail = "placement block not recognised"
+    if not brks:
+        detail = ("the scan over the days never stops (`break`): a game "
+                  "would be written on every free day")
+    elif len(brks) > 1:
+        detail = f"the scan over the days has {len(brks)} exits"
     day = Poly.var("day")
     zero = Poly.const(0)
 
